@@ -41,26 +41,55 @@ const (
 
 // ---------------------------------------------------------------- fake database
 
+// c19DB answers the one SELECT of validateAPItoken from a per-case table. How
+// each c19.Resolution.Status is expressed by a database:
+//
+//	200  one row, scopes ["all"]
+//	401  no rows (the explicit "unknown token" answer)
+//	403  one row with restricted scopes (a valid token of a local user)
+//	404  the result set fails while it is iterated (rows.Err)
+//	422  one row whose scopes column is not valid JSON
+//	429  the query fails (too many connections)
+//	500  the query fails
+//	502  one row whose scopes column is NULL (Scan fails)
+//	503  the connection turns out to be bad (driver.ErrBadConn)
+//	StatusConnError  no connection can be opened
 type c19DB struct {
 	mu    sync.Mutex
 	table map[string]c19.Resolution
 	asked []string
+	down  bool // refuse new connections (set while a StatusConnError token is in the table)
 }
 
 func (db *c19DB) set(table map[string]c19.Resolution) {
 	db.mu.Lock()
-	db.table, db.asked = table, nil
+	db.table, db.asked, db.down = table, nil, false
+	for _, r := range table {
+		if r.Status == c19.StatusConnError {
+			db.down = true
+		}
+	}
 	db.mu.Unlock()
 }
 
 type c19Connector struct{ db *c19DB }
 
-func (c c19Connector) Connect(context.Context) (driver.Conn, error) { return &c19DBConn{c.db}, nil }
-func (c c19Connector) Driver() driver.Driver                        { return c19Drv{} }
+func (c c19Connector) Connect(context.Context) (driver.Conn, error) {
+	c.db.mu.Lock()
+	down := c.db.down
+	c.db.mu.Unlock()
+	if down {
+		return nil, errors.New("c19 fake database: dial tcp 192.0.2.19:5432: connect: connection refused")
+	}
+	return &c19DBConn{c.db}, nil
+}
+func (c c19Connector) Driver() driver.Driver { return c19Drv{} }
 
 type c19Drv struct{}
 
-func (c19Drv) Open(string) (driver.Conn, error) { return nil, errors.New("VERIF-INFRA: use the connector") }
+func (c19Drv) Open(string) (driver.Conn, error) {
+	return nil, errors.New("VERIF-INFRA: use the connector")
+}
 
 type c19DBConn struct{ db *c19DB }
 
@@ -89,20 +118,46 @@ func (s *c19Stmt) Query(args []driver.Value) (driver.Rows, error) {
 	defer s.db.mu.Unlock()
 	s.db.asked = append(s.db.asked, tok)
 	res, ok := s.db.table[tok]
+	user := ""
+	if len(res.UUID) >= 12 {
+		user = res.UUID[:5] + "-tpzed-" + res.UUID[12:]
+	}
+	// a row for rows that only exist to fail: the token of a local user
+	anyRow := func(scopes driver.Value) [][]driver.Value {
+		return [][]driver.Value{{"zzzzz-gj3su-c19lookupfailure", scopes, "zzzzz-tpzed-c19lookupfailure"}}
+	}
 	switch {
 	case !ok || res.Status == 401:
 		return &c19Rows{}, nil
-	case res.Status != 200:
-		return nil, errors.New("c19 fake database: lookup failed")
+	case res.Status == 200:
+		return &c19Rows{rows: [][]driver.Value{{res.UUID, `["all"]`, user}}}, nil
+	case res.Status == 403:
+		return &c19Rows{rows: [][]driver.Value{{res.UUID, `["GET /arvados/v1/users/current","GET /arvados/v1/collections/"]`, user}}}, nil
+	case res.Status == 404:
+		return &c19Rows{failNext: errors.New("c19 fake database: connection reset while reading the result")}, nil
+	case res.Status == 422:
+		return &c19Rows{rows: anyRow(`["all"`)}, nil
+	case res.Status == 429:
+		return nil, errors.New("c19 fake database: sorry, too many clients already")
+	case res.Status == 502:
+		return &c19Rows{rows: anyRow(nil)}, nil
+	case res.Status == 503:
+		return nil, driver.ErrBadConn
 	}
-	return &c19Rows{rows: [][]driver.Value{{res.UUID, `["all"]`, res.UUID[:5] + "-tpzed-" + res.UUID[12:]}}}, nil
+	return nil, errors.New("c19 fake database: lookup failed")
 }
 
-type c19Rows struct{ rows [][]driver.Value }
+type c19Rows struct {
+	rows     [][]driver.Value
+	failNext error
+}
 
 func (r *c19Rows) Columns() []string { return []string{"uuid", "scopes", "uuid"} }
 func (r *c19Rows) Close() error      { return nil }
 func (r *c19Rows) Next(dest []driver.Value) error {
+	if r.failNext != nil {
+		return r.failNext
+	}
 	if len(r.rows) == 0 {
 		return io.EOF
 	}
@@ -124,6 +179,38 @@ type c19Route struct {
 	name, method, path string
 	form               url.Values // non-token parameters; sent in the body when the method has one, else in the query
 	hasBody            bool
+	// framing of the request as it reaches the handler:
+	//   "content-length"  HTTP/1.1, body with Content-Length (the default)
+	//   "chunked"         HTTP/1.1, Transfer-Encoding: chunked (ContentLength -1), body cut into chunks of the given sizes
+	//   "empty-body"      HTTP/1.1, a method with a body, Content-Type form-urlencoded, Content-Length: 0 (parameters in the query)
+	//   "http/1.0"        HTTP/1.0 request line, body (if any) with Content-Length
+	framing string
+	chunks  []int
+}
+
+// c19Pieces hands out data in pieces of the given sizes (cyclically); the
+// chunked writer of net/http emits one chunk per Read.
+type c19Pieces struct {
+	data  []byte
+	sizes []int
+	i     int
+}
+
+func (p *c19Pieces) Read(b []byte) (int, error) {
+	if len(p.data) == 0 {
+		return 0, io.EOF
+	}
+	n := p.sizes[p.i%len(p.sizes)]
+	p.i++
+	if n > len(p.data) {
+		n = len(p.data)
+	}
+	if n > len(b) {
+		n = len(b)
+	}
+	copy(b, p.data[:n])
+	p.data = p.data[n:]
+	return n, nil
 }
 
 func c19DrawRoute(t *rapid.T, remote string) c19Route {
@@ -155,8 +242,9 @@ func c19DrawRoute(t *rapid.T, remote string) c19Route {
 func c19Build(route c19Route, placed []c19Placed, reqid string) (*http.Request, error) {
 	query := url.Values{}
 	form := url.Values{}
+	inBody := route.hasBody && route.framing != "empty-body"
 	for k, v := range route.form {
-		if route.hasBody {
+		if inBody {
 			form[k] = v
 		} else {
 			query[k] = v
@@ -187,12 +275,25 @@ func c19Build(route c19Route, placed []c19Placed, reqid string) (*http.Request, 
 		target += "?" + query.Encode()
 	}
 	var body io.Reader
-	if route.hasBody {
+	switch {
+	case !route.hasBody:
+	case route.framing == "empty-body":
+		if len(form) > 0 {
+			return nil, errors.New("VERIF-INFRA: form parameters in an empty-body request")
+		}
+		body = strings.NewReader("")
+	case route.framing == "chunked":
+		body = &c19Pieces{data: []byte(form.Encode()), sizes: route.chunks}
+	default:
 		body = strings.NewReader(form.Encode())
 	}
 	out, err := http.NewRequest(route.method, target, body)
 	if err != nil {
 		return nil, err
+	}
+	if route.hasBody && route.framing == "chunked" {
+		out.ContentLength = -1
+		out.TransferEncoding = []string{"chunked"}
 	}
 	for k, v := range hdr {
 		out.Header[k] = v
@@ -208,9 +309,27 @@ func c19Build(route c19Route, placed []c19Placed, reqid string) (*http.Request, 
 	if err := out.Write(&wire); err != nil {
 		return nil, err
 	}
+	if route.framing == "http/1.0" {
+		// the request as an HTTP/1.0 client writes it (Content-Length framing)
+		w := wire.Bytes()
+		eol := bytes.Index(w, []byte("\r\n"))
+		if eol < 0 || !bytes.HasSuffix(w[:eol], []byte(" HTTP/1.1")) {
+			return nil, errors.New("VERIF-INFRA: unexpected request line")
+		}
+		w[eol-1] = '0'
+	}
 	in, err := http.ReadRequest(bufio.NewReader(&wire))
 	if err != nil {
 		return nil, err
+	}
+	// the framing really is what was asked for
+	switch {
+	case route.framing == "http/1.0" && !(in.ProtoMajor == 1 && in.ProtoMinor == 0):
+		return nil, fmt.Errorf("VERIF-INFRA: request was read as %s, want HTTP/1.0", in.Proto)
+	case route.framing == "chunked" && route.hasBody && !(in.ContentLength == -1 && len(in.TransferEncoding) == 1 && in.TransferEncoding[0] == "chunked"):
+		return nil, fmt.Errorf("VERIF-INFRA: request was read with ContentLength %d TransferEncoding %v, want chunked", in.ContentLength, in.TransferEncoding)
+	case route.framing == "empty-body" && route.hasBody && in.ContentLength != 0:
+		return nil, fmt.Errorf("VERIF-INFRA: request was read with ContentLength %d, want 0", in.ContentLength)
 	}
 	in.RemoteAddr = "192.0.2.19:4444"
 	return in, nil
@@ -282,9 +401,23 @@ func TestVerifC19LegacyHandler(t *testing.T) {
 		localID, remote := ids[0], ids[1]
 		owners := []string{remote, localID, ids[2]}
 		route := c19DrawRoute(t, remote)
+		route.framing = "content-length"
+		switch k := rapid.IntRange(0, 15).Draw(t, "framing"); {
+		case (k == 3 || k == 7 || k == 9 || k == 12) && route.hasBody:
+			route.framing = "chunked"
+			route.chunks = rapid.SliceOfN(rapid.SampledFrom([]int{1, 2, 3, 5, 7, 8, 9, 10, 16, 33, 64, 200, 4096}), 1, 5).Draw(t, "chunks")
+		case (k == 5 || k == 10) && route.hasBody:
+			route.framing = "empty-body"
+		case k == 6 || k == 11 || k == 13:
+			route.framing = "http/1.0"
+		}
 		places := []string{"hdr-OAuth2", "hdr-Bearer", "hdr-Basic", "query", "cookie"}
-		if route.hasBody {
+		if route.hasBody && route.framing != "empty-body" {
 			places = append(places, "form")
+			if route.framing == "chunked" {
+				// chunked framing matters most for what rides in the body
+				places = append(places, "form", "form", "form")
+			}
 		}
 		var tokens []c19.Token
 		if rapid.IntRange(0, 19).Draw(t, "noToken") != 0 {
@@ -321,6 +454,14 @@ func TestVerifC19LegacyHandler(t *testing.T) {
 				table[tk.Raw] = res[i]
 				ctlTable[ctl.Raw] = res[i]
 			}
+			// This path asks the database about opaque tokens as well. Some of
+			// them get an answer other than "no such token" (an admin-chosen
+			// secret in no standard format; a failing lookup).
+			if tk.Kind == c19.KindOpaque && !strings.Contains(tk.Raw, "/") && rapid.IntRange(0, 2).Draw(t, fmt.Sprintf("opaqueKnown%d", i)) == 1 {
+				res[i] = c19.DrawResolution(t, owners, fmt.Sprintf("res%d", i))
+				table[tk.Raw] = res[i]
+				ctlTable[ctl.Raw] = res[i]
+			}
 			placed = append(placed, c19Placed{tk, place})
 			ctlPlaced = append(ctlPlaced, c19Placed{ctl, place})
 		}
@@ -346,14 +487,41 @@ func TestVerifC19LegacyHandler(t *testing.T) {
 			t.Fatalf("VERIF-INFRA: %v", derr)
 		}
 
-		labels := []string{"route=" + route.name, fmt.Sprintf("tokens=%d", len(tokens))}
+		labels := []string{"route=" + route.name, fmt.Sprintf("tokens=%d", len(tokens)), "framing=" + route.framing}
+		for _, p := range placed {
+			if p.place == "form" && route.framing != "content-length" {
+				labels = append(labels, "framing="+route.framing+"+token-in-form-body")
+			}
+		}
 		var raws []string
 		fw := make([]c19.Forward, len(tokens))
 		var legit []string
 		mustForward := true
 		for i, p := range placed {
 			raws = append(raws, p.place+":"+p.tok.Raw)
-			fw[i] = c19.ForwardFor(p.tok, remote, res[i])
+			effRes := res[i]
+			if effRes.Status == 403 {
+				// in a database, "valid but scope-restricted" is a row like any
+				// other: the token resolves (salting it is right, refusing is
+				// safe, passing it on raw is not)
+				effRes.Status = 200
+			}
+			fw[i] = c19.ForwardFor(p.tok, remote, effRes)
+			if p.tok.Kind == c19.KindOpaque && res[i].Status != 0 {
+				// The property wants tokens that are not in Arvados format passed
+				// through unchanged; this path salts those it finds in the local
+				// database. Both are accepted, and so is refusing.
+				fw[i].Shape = fmt.Sprintf("opaque-with-lookup-answer-%d", res[i].Status)
+				if (res[i].Status == 200 || res[i].Status == 403) && !c19.BelongsTo(res[i].UUID, remote) {
+					fw[i].Accept = append(fw[i].Accept, c19.Salted(res[i].UUID, p.tok.Raw, remote))
+				}
+			}
+			if res[i].Status == 403 {
+				fw[i].Shape += "(scope-restricted)"
+			}
+			if res[i].Status != 0 {
+				labels = append(labels, fmt.Sprintf("lookup-answer=%d/%s", res[i].Status, p.tok.Kind))
+			}
 			legit = append(legit, fw[i].Accept...)
 			labels = append(labels, "place="+p.place, "tok:"+p.tok.Kind.String(), "fw:"+fw[i].Shape)
 			if p.tok.Kind == c19.KindV2 {
@@ -367,7 +535,7 @@ func TestVerifC19LegacyHandler(t *testing.T) {
 		}
 		legit = append(legit, reqid)
 		describe := func(c *c19.Captured) string {
-			s := fmt.Sprintf("%s, local %q, remote %q, tokens %q, resolutions %+v, response status %d", route.name, localID, remote, raws, res, status)
+			s := fmt.Sprintf("%s (framing %s, chunk sizes %v), local %q, remote %q, tokens %q, resolutions %+v, response status %d", route.name, route.framing, route.chunks, localID, remote, raws, res, status)
 			if c != nil {
 				s += fmt.Sprintf(": request received by the remote:\n%q", c.Raw)
 			}
@@ -423,6 +591,17 @@ func TestVerifC19LegacyHandler(t *testing.T) {
 					ok = ok || (!fw[i].Error && fw[i].Accepts(got))
 					if got == placed[i].tok.Raw {
 						asIs = &placed[i].tok
+					}
+				}
+				if !ok {
+					// A token whose lookup failed: the property does not say what
+					// to send instead; anything that does not contain the raw
+					// token is accepted here (non-disclosure is checked below).
+					for i := range placed {
+						if fw[i].Error && c19.Occurrences([]byte(got), placed[i].tok.Raw, nil) == 0 {
+							ok = true
+							labels = append(labels, "forwarded-despite-lookup-error")
+						}
 					}
 				}
 				if !ok {
@@ -509,7 +688,10 @@ func TestVerifC19LegacyHandler(t *testing.T) {
 		for _, tk := range tokens {
 			nontrivial = nontrivial || tk.Kind != c19.KindOpaque
 		}
-		stats.Case(stats.FP("legacy", raws, ids, res, route.name), nontrivial && len(caps) > 0, labels...)
+		if len(caps) > 0 {
+			labels = append(labels, "forwarded/framing="+route.framing)
+		}
+		stats.Case(stats.FP("legacy", raws, ids, res, route.name, route.framing, route.chunks), nontrivial && len(caps) > 0, labels...)
 		stats.InfoAdd("raw_requests_scanned", int64(len(caps)))
 		if len(caps) > 0 && len(placed) > 0 && stats.WantSample("legacy/"+placed[0].place) {
 			stats.Sample("legacy/"+placed[0].place, map[string]interface{}{"route": route.name, "tokens": raws, "remote": remote, "received": string(caps[0].Raw)})
